@@ -37,7 +37,7 @@ func sortedRecs(m []pubKeyRec) string {
 
 func TestC20_EonKeysPublished(t *testing.T) {
 	rec := recorder("C20")
-	rec.AddRule("keyper database (real schema on pgfake) with 1-2 keyper sets containing the keyper and several eons per set; per polling tick 0-4 rows are inserted into outgoing_eon_keys the way a finished DKG does, over 1-5 ticks; mode broadcast (TestMessaging records the signed EonPublicKey message) or callback (records arguments); the publication mechanism always accepts. Oracle: over the whole history the multiset of published (eon, activation block, keyper-set index, key bytes) equals the multiset of inserted rows, each exactly once, the broadcast messages carry a valid signature of the keyper and its instance id, and the table is empty at the end. non-trivial = some tick had >= 2 pending keys; distinct by history descriptor")
+	rec.AddRule("keyper database (real schema on pgfake) with 1-2 keyper sets containing the keyper and several eons per set; per polling tick 0-4 rows are inserted into outgoing_eon_keys the way a finished DKG does, over 1-5 ticks; mode broadcast (TestMessaging records the signed EonPublicKey message), callback (records arguments) or, one case in five, both configured at once (each mechanism must receive every key once); the publication mechanism always accepts. Oracle: over the whole history the multiset of published (eon, activation block, keyper-set index, key bytes) equals the multiset of inserted rows, each exactly once, the broadcast messages carry a valid signature of the keyper and its instance id, and the table is empty at the end. non-trivial = some tick had >= 2 pending keys; distinct by history descriptor")
 	rec.Assume("pgfake executes the repository's schema and queries like PostgreSQL")
 	ctx := context.Background()
 	runRapid(t, N(1000, 500000), func(rt *rapid.T) {
@@ -79,7 +79,12 @@ func TestC20_EonKeysPublished(t *testing.T) {
 				nextEon += int64(rapid.IntRange(1, 2).Draw(rt, fmt.Sprintf("eonGap%d_%d", s, k)))
 			}
 		}
-		broadcast := rapid.Bool().Draw(rt, "broadcast")
+		// wiring: gossip broadcast only (snapshot), callback only (gnosis, optimism, shutterservice, primev), or - one
+		// case in five - both mechanisms configured (a legal option combination of keyper.New: broadcast is on by
+		// default and a handler is registered): then each of the two receives every key exactly once
+		wiring := rapid.IntRange(0, 4).Draw(rt, "wiring")
+		broadcast := wiring <= 1 || wiring == 4
+		both := wiring == 4
 		msging, err := p2ptest.NewTestMessaging()
 		if err != nil {
 			rt.Fatalf("messaging: %v", err)
@@ -92,7 +97,9 @@ func TestC20_EonKeysPublished(t *testing.T) {
 		// built the way a keyper flavour builds it: keyper.New with its options, then the handler Start derives
 		var h *keyper.VerifEonPubKeyHandler
 		var herr error
-		if broadcast {
+		if both {
+			h, herr = keyper.VerifEonPubKeyHandlerFromOptions(cfg, n.Pool, keyper.WithMessaging(msging), keyper.WithEonPublicKeyHandler(handler))
+		} else if broadcast {
 			h, herr = keyper.VerifEonPubKeyHandlerFromOptions(cfg, n.Pool, keyper.WithMessaging(msging))
 		} else {
 			h, herr = keyper.VerifEonPubKeyHandlerFromOptions(cfg, n.Pool, keyper.WithMessaging(msging), keyper.NoBroadcastEonPublicKey(), keyper.WithEonPublicKeyHandler(handler))
@@ -142,6 +149,13 @@ func TestC20_EonKeysPublished(t *testing.T) {
 		if !checkEngine(t, rec, n) {
 			rt.Fatalf("inconclusive")
 		}
+		if both {
+			// the callback's share of the oracle first; the broadcast's share follows below
+			if sortedRecs(published) != sortedRecs(inserted) {
+				fatalf(rt, "eon-key-not-published-exactly-once", "broadcast and callback configured; generated eon keys: [%s]\nhanded to the callback: [%s]", sortedRecs(inserted), sortedRecs(published))
+			}
+			published = nil
+		}
 		if broadcast {
 			for _, sm := range msging.SentMessages {
 				m, ok := sm.Message.(*p2pmsg.EonPublicKey)
@@ -158,6 +172,9 @@ func TestC20_EonKeysPublished(t *testing.T) {
 		mode := "callback"
 		if broadcast {
 			mode = "broadcast"
+		}
+		if both {
+			mode = "broadcast+callback"
 		}
 		history := fmt.Sprintf("me=k%d sets=%d eons=%d mode=%s %s", me, nsets, len(eons), mode, strings.Join(desc, " "))
 		if sortedRecs(published) != sortedRecs(inserted) {
